@@ -5,6 +5,7 @@ from ..core import Acc, Stage
 from ..oracle import iso
 from ..scope import molecules as M, inputs
 from .. import chooser
+from ..oracle import knownclass
 
 META = {
     'technique': 'bounded exhaustive enumeration of molecules x format-option subsets x traversals of the random-order writer (choice-point explorer); re-read molecule compared atom by atom under the written order, configuration judged by RDKit; canonical-string injectivity against brute-force canonical codes',
@@ -114,7 +115,7 @@ def compare_written(acc, m, text, order, spec, bad, rd_ref):
             bad('another toolkit reads the written text as a different molecule', text=text, options=spec, got=rdk.canon(rd), expected=rdk.canon(rd_ref))
 
 
-def check_molecule(acc, m, tag, bound, opts=OPTS, limit=400):
+def check_molecule(acc, m, tag, bound, opts=OPTS, limit=400, rd_text=None):
     from rdkit import Chem, RDLogger
     RDLogger.DisableLog('rdApp.*')
     if any(a.implicit_hydrogens is None for _, a in m.atoms()) or any(b.order == 4 for *_, b in m.bonds()):
@@ -130,11 +131,21 @@ def check_molecule(acc, m, tag, bound, opts=OPTS, limit=400):
         return
     rd_ref = None
     try:
-        rd_ref = Chem.MolFromSmiles(str(m).split()[0]) if not m.is_radical else None
+        # the independent reader's view of the molecule: from the source text when there is one (not through the library's writer)
+        if m.is_radical:
+            rd_ref = None
+        elif rd_text is not None:
+            rd_ref = Chem.MolFromSmiles(rd_text.split()[0])
+        elif knownclass.ct_closure(str(m)):
+            rd_ref = None
+        else:
+            rd_ref = Chem.MolFromSmiles(str(m).split()[0])
     except Exception:
         rd_ref = None
 
     def bad(what, **d):
+        if 'text' in d and knownclass.ct_closure(d['text']) and ('configuration differs' in what or 'another toolkit reads' in what):
+            what += knownclass.TAG
         acc.fail('%s :: %s' % (what, d.get('options', '')), mol=tag, **d)
         acc.outcomes['FAIL ' + what] += 1
     for spec in opts:
@@ -186,7 +197,8 @@ def run_text(shard):
             acc.ood['unreadable'] += 1
             continue
         small = len(m) <= 9
-        check_molecule(acc, m, s, None if len(m) <= 7 else (2 if small else 1), opts=OPTS if small else ['', 'a', 'amh', 'A'], limit=200 if small else 60)
+        check_molecule(acc, m, s, None if len(m) <= 7 else (2 if small else 1), opts=OPTS if small else ['', 'a', 'amh', 'A'], limit=200 if small else 60,
+                       rd_text=s if '|' not in s else None)
         if i < 2:
             acc.sample({'smiles': s})
     return acc
@@ -276,5 +288,5 @@ def replay(rec):
                 check_molecule(acc, M.to_chython(spec), tag, None, limit=150)
     else:
         m = smiles(tag)
-        check_molecule(acc, m, tag, None if len(m) <= 7 else 2, limit=200)
+        check_molecule(acc, m, tag, None if len(m) <= 7 else 2, limit=200, rd_text=tag if '|' not in tag else None)
     return [f for f in acc.fails if f['key'] == rec['key']]
